@@ -380,45 +380,40 @@ theorem enterState_reach (mi : Nat) (m : Machine) (cur next : Nat) (s : Fw σ)
       · exact Reach.tail (Reach.tail h1 (Step.setLimit _ _)) (Step.push _ _)
   · exact Reach.refl s
 
+theorem counterOperand_spec (mi : Nat) (c : Counter) (other : Nat) (s : Fw σ) :
+    RngLogOnly s (counterOperand ρ c other s).2 ∧ Reach mi s (counterOperand ρ c other s).2 := by
+  unfold counterOperand
+  split
+  · exact ⟨RngLogOnly.refl s, Reach.refl s⟩
+  · exact sampleValue_spec ρ mi c s
+
+theorem storeCounterA_reach (mi : Nat) (oldA newA : Nat) (s : Fw σ) : Reach mi s (storeCounterA mi oldA newA s).1 := by
+  unfold storeCounterA
+  simp only
+  split
+  · exact Reach.tail (Reach.single (Step.setCtrA s _)) (Step.zeroA _)
+  · exact Reach.single (Step.setCtrA s _)
+
+theorem storeCounterB_reach (mi : Nat) (oldB newB : Nat) (s : Fw σ) : Reach mi s (storeCounterB mi oldB newB s).1 := by
+  unfold storeCounterB
+  simp only
+  split
+  · exact Reach.tail (Reach.single (Step.setCtrB s _)) (Step.zeroB _)
+  · exact Reach.single (Step.setCtrB s _)
+
 theorem applyCounterA_reach (mi : Nat) (c : Option Counter) (oldA oldB : Nat) (s : Fw σ) :
     Reach mi s (applyCounterA ρ mi c oldA oldB s).1 := by
   unfold applyCounterA
   cases c with
   | none => exact Reach.refl s
-  | some c =>
-    simp only
-    cases hc : c.copy with
-    | true =>
-      simp only [if_true]
-      split
-      · exact Reach.tail (Reach.single (Step.setCtrA s _)) (Step.zeroA _)
-      · exact Reach.single (Step.setCtrA s _)
-    | false =>
-      simp only [Bool.false_eq_true, if_false]
-      obtain ⟨_, hre⟩ := sampleValue_spec ρ mi c s
-      split
-      · exact Reach.tail (Reach.tail hre (Step.setCtrA _ _)) (Step.zeroA _)
-      · exact Reach.tail hre (Step.setCtrA _ _)
+  | some c => exact (counterOperand_spec ρ mi c oldB s).2.trans (storeCounterA_reach mi _ _ _)
 
 theorem applyCounterB_reach (mi : Nat) (c : Option Counter) (oldA oldB : Nat) (s : Fw σ) :
     Reach mi s (applyCounterB ρ mi c oldA oldB s).1 := by
   unfold applyCounterB
   cases c with
   | none => exact Reach.refl s
-  | some c =>
-    simp only
-    cases hc : c.copy with
-    | true =>
-      simp only [if_true]
-      split
-      · exact Reach.tail (Reach.single (Step.setCtrB s _)) (Step.zeroB _)
-      · exact Reach.single (Step.setCtrB s _)
-    | false =>
-      simp only [Bool.false_eq_true, if_false]
-      obtain ⟨_, hre⟩ := sampleValue_spec ρ mi c s
-      split
-      · exact Reach.tail (Reach.tail hre (Step.setCtrB _ _)) (Step.zeroB _)
-      · exact Reach.tail hre (Step.setCtrB _ _)
+  | some c => exact (counterOperand_spec ρ mi c oldA s).2.trans (storeCounterB_reach mi _ _ _)
 
 end
 
